@@ -13,6 +13,7 @@ pub mod c06;
 pub mod c07;
 pub mod c08;
 pub mod c09;
+pub mod c10;
 pub mod c11;
 pub mod c12;
 pub mod c13;
@@ -38,7 +39,7 @@ pub struct Entry {
 }
 
 pub fn all() -> Vec<Entry> {
-    vec![c01::entry(), c02::entry(), c03::entry(), c04::entry(), c05::entry(), c06::entry(), c07::entry(), c08::entry(), c09::entry(), c11::entry(), c12::entry(), c13::entry(), c14::entry(), c15::entry(), c16::entry(), c17::entry(), c18::entry()]
+    vec![c01::entry(), c02::entry(), c03::entry(), c04::entry(), c05::entry(), c06::entry(), c07::entry(), c08::entry(), c09::entry(), c10::entry(), c11::entry(), c12::entry(), c13::entry(), c14::entry(), c15::entry(), c16::entry(), c17::entry(), c18::entry()]
 }
 
 pub fn lookup(id: &str) -> Option<Entry> {
